@@ -22,7 +22,7 @@ RULE = ("(a) histories of 2-8 connections opening, calling and closing against r
         "non-trivial = more than one connection or thread involved")
 ASSUMPTIONS = ["a slow constructor (sleep) is a legitimate application behaviour that widens the race window without touching Pyro",
                "scheduling points = source lines of Daemon._getInstance (and its nested createInstance) only"]
-REQUIRED_REACH = ["single_ok", "session_ok", "percall_ok", "creator_counts_ok", "failing_creator_ok", "racing_first_calls", "session_instances_dropped", "schedules_explored", "multi_daemon_ok", "oneway_first_requests", "registered_class_inherits_behavior", "registration_changes_ok"]
+REQUIRED_REACH = ["single_ok", "session_ok", "percall_ok", "creator_counts_ok", "failing_creator_ok", "racing_first_calls", "session_instances_dropped", "schedules_explored", "multi_daemon_ok", "oneway_first_requests", "registered_class_inherits_behavior", "registration_changes_ok", "slow_constructor_with_commtimeout"]
 SHARD_TIMEOUT = {"quick": 240, "thorough": 2800}
 SHAPES = ["truthy", "falsy_len", "falsy_bool", "eq_always"]
 CREATORS = ["none", "ok", "raises", "raises_type", "wrongtype", "subclass"]     # subclass: the creator returns an instance of a subclass (allowed by the daemon's isinstance check)
@@ -112,17 +112,19 @@ def make_class(P, mode, shape, creator, slow=0.0, inherit=False):
     return Inst, book
 
 
-def socket_case(fx, mode, shape, creator, nconn, ncalls, rec, r, sername, race, inherit=None):
+def socket_case(fx, mode, shape, creator, nconn, ncalls, rec, r, sername, race, inherit=None, slow_override=None):
     P = fx.P
     if inherit is None:
         inherit = r.random() < 0.3
     if inherit:
         rec.count("registered_class_inherits_behavior")
     slow = r.choice([0.001, 0.004, 0.01]) if race else (r.choice([0.0, 0.06, 0.1]) if mode == "session" else 0.0)      # (Nagle + delayed ACK put ~40 ms between a oneway request and the next one)
+    if slow_override is not None:
+        slow = slow_override
     cls, book = make_class(P, mode, shape, creator, slow, inherit)
     objid = "cls%d" % r.randrange(10 ** 9)
     fx.daemon.register(cls, objid)
-    pay = {"mode": mode, "shape": shape, "creator": creator, "nconn": nconn, "ncalls": ncalls, "race": race, "servertype": fx.servertype, "serializer": sername, "inherit": inherit}
+    pay = {"mode": mode, "shape": shape, "creator": creator, "nconn": nconn, "ncalls": ncalls, "race": race, "servertype": fx.servertype, "serializer": sername, "inherit": inherit, "slow": slow_override, "commtimeout": P.config.COMMTIMEOUT}
     rec.case(("sock", mode, shape, creator, nconn, ncalls, race, fx.servertype, sername, inherit), nontrivial=nconn > 1, sample=pay if rec.evaluations % 40 == 3 else None)
     results = {}
     errors = {}
@@ -531,6 +533,13 @@ def run_shard(shard, rec):
                             return
                         nconn = r.randrange(2, 9) if race else r.randrange(2, 5)
                         socket_case(fx, mode, shape, creator, nconn, r.randrange(1, 4), rec, r, r.choice(fixture.SERIALIZERS), race)
+        if mode == "single":
+            # a daemon with a communication timeout, and a constructor that takes longer than that: racing first calls still get one instance
+            fx.stop()
+            fx = fixture.Fixture(servertype=shard["servertype"], COMMTIMEOUT=0.25, THREADPOOL_SIZE=40, THREADPOOL_SIZE_MIN=2)
+            for creator in ("none", "ok"):
+                socket_case(fx, "single", "truthy", creator, 3, 1, rec, r, r.choice(fixture.SERIALIZERS), True, inherit=False, slow_override=0.7)
+                rec.count("slow_constructor_with_commtimeout")
         for kind, text in fixture.take_faults():
             if kind == "thread-exception":
                 rec.violation("server-thread-fault", text, None)
@@ -564,8 +573,9 @@ def replay(payload, rec):
             for f in fxs:
                 f.stop()
         return
-    fx = fixture.Fixture(servertype=payload["servertype"], COMMTIMEOUT=0.0, THREADPOOL_SIZE=40, THREADPOOL_SIZE_MIN=2)
+    fx = fixture.Fixture(servertype=payload["servertype"], COMMTIMEOUT=payload.get("commtimeout", 0.0), THREADPOOL_SIZE=40, THREADPOOL_SIZE_MIN=2)
     try:
-        socket_case(fx, payload["mode"], payload["shape"], payload["creator"], payload["nconn"], payload["ncalls"], rec, r, payload["serializer"], payload["race"], payload.get("inherit", False))
+        socket_case(fx, payload["mode"], payload["shape"], payload["creator"], payload["nconn"], payload["ncalls"], rec, r, payload["serializer"], payload["race"], payload.get("inherit", False),
+                    slow_override=payload.get("slow"))
     finally:
         fx.stop()
